@@ -1,9 +1,36 @@
 #!/usr/bin/env python3
-"""C19 — stop() interrupts the solver promptly, from any thread, leaving valid results.
-DESIGN.md §6 C19.  Proof stage on Props/C19_Panoc.lean (+ the generated stop-flag tables),
-trace-replay correspondence, exhaustive stop injection at every event index and every callback
-index of fixed runs, and a real-thread test (ThreadSanitizer in the thorough tier).
-ALM propagation (`Interrupted` returned without another inner solve) is checked by C07."""
+"""C19 — stop() interrupts the solver promptly, from any thread, leaving valid results.  DESIGN.md §6 C19.
+
+One proof stage over Props/C19_{Panoc,Zerofpr,Pantr,Fista,Ocp} (+ the generated stop-flag tables of gen_c19,
++ Props/C07: ALM returns Interrupted at once when the inner solver was interrupted), then
+
+  per inner solver   exhaustive stop injection on fixed runs — stop() from inside *every* event (problem call,
+                     direction call) and *every* progress callback —, seeded random stop points, bit-exact
+                     trace replay against the loop model, and the monitor below;
+  real threads       another std::thread calls stop() after the k-th evaluation / a random delay on a slowed-down
+                     problem (PANOC, ZeroFPR, PANTR, FISTA); ThreadSanitizer build in the thorough tier;
+  ALM level          checks/c19_alm.py: the real ALMSolver over each of the four inner solvers, alm.stop() from
+                     inside every event of fixed ALM runs (≥ 2 outer iterations).
+
+Monitor (real solver's outputs only).  With T = total number of events, t₀ = the event during which stop()
+was called, init = events of the initialisation (Lipschitz estimate, first prox step, 2 per initial step-size
+backtrack), b = step-size backtracks performed after t₀ in loops that do not poll the flag:
+
+  PANOC, ZeroFPR   T ≤ max(init + 4, t₀ + 7)        (Props/C19_Panoc.at_most_one_iteration_after_stop; ZeroFPR:
+                                                     same count derived from zerofpr.tpp: ≤ 3 calls of the stage in
+                                                     flight, head ≤ 3, final callback)
+  PANTR            T ≤ max(init + 3, t₀ + 17 + 2b)  (C19_Pantr: iteration ≤ 15 + 2b events, exit ≤ 3; the only poll
+                                                     is the loop head)
+  FISTA            T ≤ max(init + 5, t₀ + 6) + 2b   (fista.tpp: one pass = prox, ψ, 2b, ∇ψ(x̂), unit prox, callback,
+                                                     ψ∇ψ; the poll is at the end of the pass)
+  PANOC-OCP        T ≤ (tick of the first progress callback at or after t₀ in the *unstopped* run) + 1
+                                                    (events are raw problem calls, their number per stage depends
+                                                     on N; the rest of the iteration in flight + the final callback)
+  all              ≤ 2 progress callbacks after t₀; status Interrupted or the natural one (C06 loop monitor);
+                   Interrupted only if stop() was called; outputs satisfy the C03 monitor.
+A stop that lands during the initialisation and is honoured only after more than the per-iteration bound is the
+open finding C19-init-stepsize-loop-not-interruptible (initial step-size loop does not poll the flag).
+"""
 import math
 import os
 import random
@@ -16,10 +43,11 @@ import solvers as S
 import c03
 import c06_loop
 import loops as LP
+import loopmon as LM
 
-SOLVERS = ['panoc']
+SOLVERS = ['panoc', 'zerofpr', 'pantr', 'fista', 'ocp']
 COUNTS = {}
-HUNG = []
+PER = {}
 
 # inputs kept from earlier failures, run first
 CORPUS = [
@@ -37,114 +65,224 @@ CORPUS = [
     'L0=3f30000000000000 stopat=2 stopcb=0 nanat=0 oot=0 wmscratch=1',
 ]
 
-# Bound proved for the model (Props/C19_Panoc.at_most_one_iteration_after_stop): with the flag
-# visible from tick t₀ the solve ends at tick ≤ max(init_ticks + 4, t₀ + 7).
-AFTER_STOP = 7          # one stage in flight (≤ 3 more calls) + head (≤ 2) + exit block (≤ 2)
-AFTER_INIT = 4          # head (≤ 2) + exit block (≤ 2)
+# events after a visible stop request: (after the initialisation, after the stop, unpolled backtracks count?)
+BOUNDS = {
+    'panoc': dict(after_init=4, after_stop=7, bt=False),
+    'zerofpr': dict(after_init=4, after_stop=7, bt=False),
+    'pantr': dict(after_init=3, after_stop=17, bt=True),
+    'fista': dict(after_init=5, after_stop=6, bt=True),
+}
+AFTER_STOP = BOUNDS['panoc']['after_stop']
+AFTER_INIT = BOUNDS['panoc']['after_init']
+KEY_INIT = 'C19-init-stepsize-loop-not-interruptible'
+
+# unstopped runs of the sweep bases: op line (stopat = stopcb = 0) -> ticks of its progress callbacks
+BASE_CB = {}
 
 
 def bump(k, n=1):
     COUNTS[k] = COUNTS.get(k, 0) + n
 
 
+def base_key(op):
+    o = S.Op(op)
+    o['stopat'] = '0'; o['stopcb'] = '0'
+    o.pop('trace', None)
+    return o.line()
+
+
+# ------------------------------------------------------------------ generators
+
+def gen_base(name, rng, mod):
+    """A fixed run without stop injection (max_iter 2–4, tolerance 1e-12, no NaN / time limit)."""
+    mi = rng.choice([2, 3, 4])
+    if name == 'panoc':
+        return c03.gen_run(rng, solver='panoc', stop=False, maxiter=mi, nanat=0, oot=0, tol=C.f2h(1e-12))
+    if name == 'ocp':
+        return mod.gen_run(rng, stop=False, scenario='plain', maxiter=mi, oot=0, tol=C.f2h(1e-12),
+                           N=rng.choice([1, 2, 3]), crit=rng.choice([2, 3, 4, 5, 6, 7]))
+    return mod.gen_run(rng, stop=False, maxiter=mi, nanat=0, oot=0, tol=C.f2h(1e-12))
+
+
+def random_run(name, rng, mod):
+    if name == 'panoc':
+        return c03.gen_run(rng, solver='panoc', nanat=0)
+    if name == 'ocp':
+        return mod.gen_run(rng)
+    return mod.gen_run(rng, nanat=0)
+
+
 @C.tolerant
-def sweep_ops(rng, exe, n_problems, solver='panoc'):
-    """Exhaustive stop injection on fixed runs: stop() from inside every problem / direction call
-    (event index 1…T, checks/c03.sweep_ops) *and* from inside every progress callback (1…#callbacks)."""
+def sweep_ops(name, rng, exe, n_problems, mod=None):
+    """Exhaustive stop injection on fixed runs: stop() from inside every event (index 1…T) *and* from inside
+    every progress callback (1…#callbacks).  The unstopped run's callback ticks are kept in BASE_CB."""
     ops = []
     for _ in range(n_problems):
-        base = LP.LOOPS[solver]['gen_run'](rng, solver=solver, stop=False, maxiter=rng.choice([2, 3, 4]),
-                                           nanat=0, oot=0, trace=0, tol=C.f2h(1e-12))
+        base = gen_base(name, rng, mod)
+        probe = S.Op(base)
+        probe['trace'] = '2' if name == 'ocp' else '1'
         try:
-            out, rc, err = C.run_lines(exe, [base.line()], timeout=30)
+            out, rc, err = C.run_lines(exe, [probe.line()], timeout=30)
         except subprocess.TimeoutExpired:
-            HUNG.append(base.line())
+            continue                       # reported by the pre-screening of the generated ops
+        if rc != 0 or not out or out[0].startswith('S exception'):
             continue
-        if rc != 0 or not out:
-            continue
-        r = S.parse_out(out[0])
-        base.pop('trace')
-        for t in range(1, r.get('ticks', 0) + 1):
+        secs = out[0].split(' ; ')
+        T = next(int(s.split()[1]) for s in secs if s.startswith('T '))
+        ncb = sum(1 for s in secs if s.startswith('CB '))
+        evs = LM.ev_list(out[0])
+        if name == 'ocp':
+            calls = next((e[1:] for e in evs if e and e[0] == 'calls'), [])
+            cbt = [i + 1 for i, c in enumerate(calls) if c == 'cb']
+        else:
+            cbt = [i + 1 for i, c in enumerate(LM.ev_names(evs)) if c == 'cb']
+        BASE_CB[base_key(base)] = cbt
+        for t in range(1, T + 1):
             o = S.Op(base); o['stopat'] = str(t)
             ops.append(o.line())
-        for j in range(1, len(r['cbs']) + 1):
+        for j in range(1, ncb + 1):
             o = S.Op(base); o['stopcb'] = str(j)
             ops.append(o.line())
         bump('sweep_base_runs')
     return ops
 
 
-def monitor(op_line, out_line, st):
+# ------------------------------------------------------------------ monitor
+
+def init_ticks(names, flavor):
+    """Events of the initialisation, read off the event names of the run."""
+    if flavor == 'fista':
+        if names[:1] == ['gradpsi']:
+            return 1
+        if names[:1] == ['psigradpsi']:
+            return 2 if names[1:2] == ['gradpsi'] else 1
+        return 0
+    if not names or names[0] != 'psigradpsi':
+        return 0
+    i = 1
+    if i < len(names) and names[i] == 'gradpsi':
+        i += 1
+    second = ('psi', 'psigradpsi') if flavor == 'panoc' else ('psi',)
+    while i + 1 < len(names) and names[i] == 'prox' and names[i + 1] in second:
+        i += 2
+    return i
+
+
+def backtracks_after(names, t0):
+    """Step-size backtracks (`prox, ψ` right after a ψ evaluation) that begin after event t0."""
+    return sum(1 for i in range(max(t0, 1), len(names) - 1)
+               if names[i] == 'prox' and names[i - 1] == 'psi' and names[i + 1] == 'psi')
+
+
+def c03_part(solver, op_line, out_line, st):
+    """The C03 monitor through the solver's view (as checks/c03.py applies it)."""
+    if solver.name == 'ocp':
+        import c13
+        return c13.monitor(op_line, out_line, st)
+    if solver.name == 'fista':
+        return c03.monitor(op_line, out_line, st, parse=solver.mod.parse_out)
+    if solver.name == 'pantr':
+        return solver.mod.c03_monitor(op_line, out_line)
+    o2, h2 = solver.c03_view(op_line, out_line)
+    return c03.monitor(o2, h2, st)
+
+
+def monitor(op_line, out_line, st, solver=None):
+    flavor = solver.name if solver is not None else 'panoc'
     if out_line.startswith('exception') or out_line in ('bad-op', 'bad-direction'):
         return f'harness: {out_line[:100]}'
     op = S.Op.parse(op_line)
-    r = S.parse_out(out_line)
-    stx = r['stats']
-    if stx['status'] == 'exception':
+    want = op.nat('stopat', 0) or op.nat('stopcb', 0)
+    if out_line.startswith('S exception'):
+        if flavor == 'ocp':
+            import c13
+            return c13.monitor(op_line, out_line, st)       # unsupported criterion must throw, outputs untouched
         return 'solver threw'
     # outputs: same consistency relations as any other exit (C03), status conditions (C06)
-    m = c03.monitor(op_line, out_line, st)
+    if solver is None:
+        m = c03.monitor(op_line, out_line, st)
+    elif flavor == 'zerofpr' and solver.mod.is_wild(op_line):
+        m = None                           # diverging tiny-L_max runs: the C03 tolerance is not meaningful there
+    else:
+        m = c03_part(solver, op_line, out_line, st)
     if m:
         return m
-    m = c06_loop.monitor(op_line, out_line, st)
+    m = c06_loop.monitor(op_line, out_line, st, flavor=flavor)
     if m:
         return m
+    r = c06_loop.parse(flavor, out_line)
+    stx = r['stats']
+    evs = r['events']
     T = r.get('ticks', 0)
-    t0 = LP.stoptick(r)
-    want = op.nat('stopat', 0) or op.nat('stopcb', 0)
+    t0 = LM.ev_stoptick(evs)
+    status = stx['status']
     if t0 is None:
-        if stx['status'] == 'Interrupted':
+        if status == 'Interrupted':
             return 'Interrupted although stop() was never called'
         bump('runs_finished_before_stop' if want else 'runs_without_stop')
         return None
     bump('stops_landed')
-    init = LP.init_ticks(r)
-    status = stx['status']
-    # promptness: tick bound
-    if T > max(init + AFTER_INIT, t0 + AFTER_STOP):
-        return (f'stop() landed at event {t0} but the solve made {T - t0} further calls (total {T}; '
-                f'initialisation {init}); bound: {AFTER_STOP} after the stop or {AFTER_INIT} after the '
-                f'initialisation')
-    # at most one more progress callback with status Busy after the stop
-    names = LP.event_names(r)
-    cb_after = sum(1 for n in names[t0:] if n == 'cb')
-    if cb_after > 2:
-        return f'{cb_after} progress callbacks after stop() landed at event {t0}'
-    # the flag was visible at the last head (which precedes at most 2 calls) -> Interrupted unless a
-    # higher-priority condition held there (those are checked by the C06 monitor above)
-    if t0 <= T - 2 and status not in ('Interrupted', 'Converged', 'MaxTime', 'MaxIter', 'NotFinite',
-                                      'NoProgress'):
+    if status not in LM.NATURAL:
         return f'stop() landed at event {t0} of {T} but the status is {status}'
-    if t0 <= T - 2:
-        bump('status_after_stop_' + status)
     if status == 'Interrupted':
         bump('interrupted')
         if r['out']['untouched'] and not r['cbs']:
             return 'Interrupted without any callback'
-    if T - t0 > AFTER_STOP:
+    else:
+        bump('status_after_stop_' + status)
+    if flavor == 'ocp':
+        cbt = BASE_CB.get(base_key(op))
+        if cbt is None:
+            bump('ocp_runs_without_unstopped_reference')
+            return None
+        nxt = next((c for c in cbt if c >= t0), None)
+        if nxt is None:
+            return f'stop() landed at event {t0}, after the last callback of the unstopped run ({cbt[-1:]})'
+        if T > nxt + 1:
+            return (f'stop() landed at event {t0}; the unstopped run finishes the iteration in flight at event '
+                    f'{nxt}, but the stopped run made {T} calls (> {nxt} + final callback)')
+        bump('ocp_bound_checked')
+        return None
+    names = LM.ev_names(evs)
+    B = BOUNDS[flavor]
+    init = init_ticks(names, flavor)
+    b = backtracks_after(names, t0) if B['bt'] else 0
+    if b:
+        bump('unpolled_backtracks_after_stop', b)
+    # promptness: event bound
+    if flavor == 'fista':
+        bound = max(init + B['after_init'], t0 + B['after_stop']) + 2 * b
+    else:
+        bound = max(init + B['after_init'], t0 + B['after_stop'] + 2 * b)
+    if T > bound:
+        return (f'stop() landed at event {t0} but the solve made {T - t0} further calls (total {T}; '
+                f'initialisation {init}; {b} un-polled step-size backtracks after the stop); bound: '
+                f'{B["after_stop"]} (+2 per such backtrack) after the stop or {B["after_init"]} after the '
+                f'initialisation')
+    # at most one more progress callback with status Busy after the stop
+    cb_after = sum(1 for n in names[t0:] if n == 'cb')
+    if cb_after > 2:
+        return f'{cb_after} progress callbacks after stop() landed at event {t0}'
+    if T - t0 > B['after_stop'] + 2 * b:
         # only possible for a stop that landed during the initialisation: the initial step-size
         # backtracking loop does not poll the flag
-        nb = max(0, (init - (4 if op.flt('L0', 0.0) <= 0 else 3)) // 2)
+        nb = sum(1 for i in range(1, init - 1) if names[i] == 'prox' and names[i - 1] == 'psi')
         bump('stops_during_unpolled_init_backtracking')
         return (f'stop() landed at event {t0} during the initialisation; the initial step-size loop '
                 f'({nb} backtracks, {init} calls in total) is not interruptible: {T - t0} further calls '
-                f'> {AFTER_STOP}', 'C19-init-stepsize-loop-not-interruptible')
+                f'> {B["after_stop"]}', KEY_INIT)
+    bump('bound_checked')
     return None
 
 
 def nontrivial(op_line, out_line):
-    try:
-        r = S.parse_out(out_line)
-        if LP.stoptick(r) is not None:
-            return hash(op_line)
-    except Exception:
-        return None
-    return None
+    return hash(op_line) if ' ; EV stoptick ' in out_line else None
 
 
 # ------------------------------------------------------------------ real threads
 
-THREAD_LIB = S.LIB_SUBSET
+THREAD_SOLVERS = ['panoc', 'zerofpr', 'pantr', 'fista']
+THREAD_LIB = S.LIB_SUBSET + ['inner/fista.cpp']
 
 
 def build_thread_harness(tsan):
@@ -157,15 +295,18 @@ def build_thread_harness(tsan):
 
 def thread_ops(rng, n):
     ops = []
-    for _ in range(n):
+    for k in range(n):
+        solver = ('panoc', 'zerofpr', 'panoc', 'pantr', 'panoc', 'fista', 'zerofpr', 'pantr')[k % 8]
         p = S.gen_problem(rng, convex=rng.random() < 0.5)
         st = S.gen_start(rng, p)
-        op = S.Op({'_op': 'threadstop', 'dir': rng.choice(['lbfgs', 'lbfgs', 'noop', 'anderson']),
+        op = S.Op({'_op': 'threadstop', 'solver': solver,
+                   'dir': rng.choice(['lbfgs', 'lbfgs', 'noop', 'anderson']),
                    **S.problem_kv(p), **{k: S.kvvec(v) for k, v in st.items()},
                    'maxiter': str(rng.choice([50, 200, 1000])), 'tol': C.f2h(rng.choice([1e-300, 1e-300, 1e-14, 1e-3])),
                    'crit': str(rng.randrange(10)), 'maxnp': '1000', 'overwrite': str(rng.randint(0, 1)),
                    'updcand': str(rng.randint(0, 1)), 'recomp': str(rng.randint(0, 1)),
                    'eager': str(rng.randint(0, 1)), 'mem': str(rng.choice([1, 5])),
+                   'advseed': str(rng.randint(1, 1000)),
                    'L0': C.f2h(rng.choice([0.0, 0.0, 1.0])),
                    'stopeval': str(rng.choice([1, 2, 3, 5, 8, 9, 10, 11, 12, 13, 17, 21, 30, 40, 80, 200])),
                    'delay_us': str(rng.choice([0, 0, 0, 1, 10, 100, 1000])),
@@ -180,41 +321,52 @@ def thread_monitor(op_line, out_line):
     r = S.parse_out(out_line)
     if r['stats']['status'] == 'exception':
         return 'solver threw'
+    op = S.Op.parse(op_line)
+    solver = op.get('solver', 'panoc')
+    B = BOUNDS[solver]
     a = [s.split() for s in out_line.split(' ; ') if s.startswith('A ')]
     at_stop, total, in_time = int(a[0][1]), int(a[0][2]), a[0][3] == '1'
     status = r['stats']['status']
     if status not in ('Interrupted', 'Converged', 'MaxIter', 'NoProgress', 'NotFinite'):
         return f'status {status}'
-    if in_time and at_stop < 6 + 2 * r['stats']['stepsize_backtracks']:
+    sb = r['stats']['stepsize_backtracks']
+    # evaluations (problem calls only) ≤ events; un-polled backtracks are not located in time here: all count
+    after = B['after_stop'] + (2 * sb if B['bt'] else 0)
+    maybe_init = at_stop < 6 + 2 * sb
+    if in_time and maybe_init:
         bump('thread_stop_possibly_during_init')     # promptness bound not applied (see the finding)
     if status == 'Interrupted':
-        bump('thread_interrupted')
+        bump('thread_interrupted'); bump('thread_interrupted_' + solver)
         if not in_time and at_stop < 0:
             return 'Interrupted but stop() was not called'
-        if total - at_stop > AFTER_STOP and at_stop >= 6 + 2 * r['stats']['stepsize_backtracks']:
-            return (f'stop() returned when {at_stop} evaluations had begun, the solve made '
-                    f'{total - at_stop} more (> {AFTER_STOP})')
+        if total - at_stop > after and not maybe_init:
+            return (f'[{solver}] stop() returned when {at_stop} evaluations had begun, the solve made '
+                    f'{total - at_stop} more (> {after})')
     else:
         bump('thread_natural_' + status)
-        if in_time and total - at_stop > AFTER_STOP and at_stop >= 6 + 2 * r['stats']['stepsize_backtracks']:
-            return (f'stop() was called in time ({at_stop} evaluations begun) but the solve went on for '
-                    f'{total - at_stop} evaluations and returned {status}')
+        if in_time and total - at_stop > after and not maybe_init:
+            return (f'[{solver}] stop() was called in time ({at_stop} evaluations begun) but the solve went on '
+                    f'for {total - at_stop} evaluations and returned {status}')
     # outputs consistent (same relations as any other exit)
-    op = S.Op.parse(op_line)
     return c03.monitor(op_line, out_line, {})
 
 
-def thread_stage(rep, broken, exe_, tier):
+def thread_stage(rep, broken, tier):
     tsan = tier == 'thorough'
     texe, log = build_thread_harness(tsan)
     if texe is None:
         broken.append('thread harness does not compile against the working tree: ' + log[-1200:])
         return
     rng = random.Random(C.seed() * 7717 + 19)
-    ops = thread_ops(rng, 40 if tier == 'quick' else 400)
+    ops = thread_ops(rng, 64 if tier == 'quick' else 480)
     env = dict(os.environ, TSAN_OPTIONS='halt_on_error=0 report_signal_unsafe=0 exitcode=0')
-    r = subprocess.run([texe], input='\n'.join(ops) + '\n', stdout=subprocess.PIPE, stderr=subprocess.PIPE,
-                       text=True, timeout=1500, env=env)
+    try:
+        r = subprocess.run([texe], input='\n'.join(ops) + '\n', stdout=subprocess.PIPE, stderr=subprocess.PIPE,
+                           text=True, timeout=1500, env=env)
+    except subprocess.TimeoutExpired:
+        rep.violation('real-thread runs did not return within the time limit (stop() not honoured?)',
+                      {'ops': ops[:5]}, True)
+        return
     out = r.stdout.splitlines()
     rep.cov['evaluations'] += len(out)
     rep.cov['thread_runs'] = len(out)
@@ -237,64 +389,91 @@ def thread_stage(rep, broken, exe_, tier):
             bad += 1
             if bad >= 3:
                 break
-    if COUNTS.get('thread_interrupted', 0) == 0:
-        broken.append('real-thread test never produced an Interrupted run')
+    for s in THREAD_SOLVERS:
+        if COUNTS.get('thread_interrupted_' + s, 0) == 0:
+            broken.append(f'real-thread test never produced an Interrupted {s} run')
+
+
+# ------------------------------------------------------------------ check
+
+def adapters():
+    import multiloop
+    out = []
+    for s in multiloop.registry():
+        def gen(a, rng, n, exe, nsweep):
+            mod = getattr(a, 'mod', None)
+            ops = list(CORPUS) if a.name == 'panoc' else []
+            ops += [random_run(a.name, rng, mod).line() for _ in range(n)]
+            if exe and nsweep:
+                ops += sweep_ops(a.name, rng, exe, nsweep, mod=mod)
+            return ops
+        extra = ['Alpaqa/Proofs/PanocLoop.lean', 'Alpaqa/Proofs/PanocLoopExample.lean',
+                 'Alpaqa/Props/C06_Panoc.lean', 'Alpaqa/Props/C03.lean'] if s.name == 'panoc' else []
+        out.append(LM.Adapter(s, gen, extra_sources=extra, skip_monitor=lambda op: False))
+    return out
+
+
+def solver_monitor(solver, o, h, st):
+    before = dict(COUNTS)
+    try:
+        return monitor(o, h, st, solver=solver)
+    finally:
+        d = PER.setdefault(solver.name, {})
+        for k, v in COUNTS.items():
+            if v != before.get(k, 0):
+                d[k] = d.get(k, 0) + v - before.get(k, 0)
 
 
 def main(argv):
-    exe, log = LP.LOOPS['panoc']['build']()
-    tier = C.tier_from_argv(argv)
+    import multiloop
+    import c19_alm
+    sols = adapters()
 
-    def gen_ops(rng, n):
-        if HUNG:
-            return []          # a run already failed to terminate: no point in searching further
-        first = not COUNTS.get('_gen_calls')
-        bump('_gen_calls')
-        ops = (CORPUS if first else []) + \
-            [LP.LOOPS['panoc']['gen_run'](rng, solver='panoc', nanat=0).line() for _ in range(n)]
-        if exe:
-            ops += sweep_ops(rng, exe, 8 if tier == 'quick' else 60)
-        ops, _, hung = LP.prescreen(exe, ops)
-        HUNG.extend(hung)
-        return ops
+    def extra(rep, broken, tier):
+        LM.report_hung(rep, sols)
+        thread_stage(rep, broken, tier)
+        c19_alm.alm_stage(rep, broken, tier)
+        rep.cov['monitor_counts'] = {k: dict(sorted(v.items())) for k, v in PER.items()}
+        rep.cov['thread_counts'] = {k: v for k, v in sorted(COUNTS.items()) if k.startswith('thread_')}
+        for name, d in PER.items():
+            rep.note(f'monitor coverage [{name}]: ' + ', '.join(f'{k}={v}' for k, v in sorted(d.items())))
+        rep.note('thread coverage: ' + ', '.join(f'{k}={v}' for k, v in rep.cov['thread_counts'].items()))
+        for s in sols:
+            if rep.cov.get('per_solver', {}).get(s.name, {}).get('runs') and \
+                    PER.get(s.name, {}).get('interrupted', 0) == 0:
+                broken.append(f'[{s.name}] stop injection never produced an Interrupted run')
 
-    def extra(rep, broken, exe_, tier_):
-        LP.report_hung(rep, HUNG, 'PANOC')
-        thread_stage(rep, broken, exe_, tier_)
-        rep.cov['monitor_counts'] = dict(sorted(COUNTS.items()))
-        rep.note('monitor coverage: ' + ', '.join(f'{k}={v}' for k, v in sorted(COUNTS.items())))
-        if exe_ and COUNTS.get('interrupted', 0) == 0:
-            broken.append('stop injection never produced an Interrupted run')
-
-    return C.standard_check(
-        'C19', argv,
-        gen_scripts=['gen_c19.py', 'gen_c05.py', 'gen_c06.py', 'gen_c15.py'],
-        modules=['Alpaqa.Props.C19_Panoc'], driver=LP.LOOPS['panoc']['driver'],
-        extra_sources=['Alpaqa/Model/Panoc.lean', 'Alpaqa/Gen/C19.lean', 'Alpaqa/Gen/C06.lean',
-                       'Alpaqa/Proofs/PanocLoop.lean', 'Alpaqa/Proofs/PanocInv.lean',
-                       'Alpaqa/Props/C06_Panoc.lean', 'Alpaqa/Props/C03.lean',
-                       'Alpaqa/Proofs/PanocLoopExample.lean'],
-        harness_name='solvers', harness_sources=[], harness_builder=lambda: (exe, log),
-        gen_ops=gen_ops, monitor=monitor, nontrivial=nontrivial, extra_stage=extra,
-        driver_input=lambda o, h: o + ' || ' + S.events_only(h), impl_view=S.strip_events,
-        n_quick=150, n_thorough=3000,
+    return multiloop.loop_check(
+        'C19', argv, monitor=solver_monitor, nontrivial=nontrivial, solvers=sols, extra_stage=extra,
+        extra_modules=['Alpaqa.Props.C19_Panoc', 'Alpaqa.Props.C07'],
+        extra_gens=['gen_c19.py', 'gen_c15.py', 'gen_c07.py'],
+        extra_sources=['Alpaqa/Gen/C19.lean', 'Alpaqa/Gen/C07.lean', 'Alpaqa/Model/C07.lean',
+                       'Alpaqa/Proofs/C07.lean', 'Alpaqa/Proofs/C07Run.lean'],
+        n_quick=400, n_thorough=6000, sweep_quick=6, sweep_thorough=40,
         trusted_base=[
             'Lean 4.33 kernel + Mathlib (axioms: propext, Classical.choice, Quot.sound)',
             'translator gen_c19 (declaration / accesses of stop_flag in atomic-stop-signal.hpp, uses of '
-            'stop_signal in the solvers), gen_c06 (status chain)',
-            'hand-written loop model Alpaqa/Model/Panoc.lean tied by bit-exact trace replay incl. the '
-            'number of oracle calls, with stop() injected at every event / callback index of fixed runs',
-            'the stop flag enters the model as a monotone function of the tick; data-race freedom is the '
+            'stop_signal in the solvers), gen_c06 (status chain), gen_c07 (ALM loop: early return on Interrupted)',
+            'hand-written loop models Alpaqa/Model/{Panoc,Zerofpr,Pantr,Fista,Ocp}.lean tied by bit-exact trace '
+            'replay incl. the number of oracle calls, with stop() injected at every event / callback index of '
+            'fixed runs',
+            'the stop flag enters the models as a monotone function of the tick; data-race freedom is the '
             'C++ memory model\'s guarantee for std::atomic and is NOT proved — validated by the '
             'ThreadSanitizer run (thorough tier) only',
-            'ALM propagation of Interrupted: see C07; ZeroFPR / PANTR / FISTA / PANOC-OCP: not covered here',
+            'ALM level: Props/C07 (scripted inner solver) + monitors on the real ALMSolver over the four real '
+            'inner solvers (checks/c19_alm.py); there is no Lean model of ALM composed with a real inner loop',
         ],
         assumptions=['stop() lands between two polls: the granularity of the model is one oracle call',
-                     'x86-64 total store order in the real-thread test (relaxed load sees the store promptly)'],
-        rule='exhaustive: for fixed PANOC runs (max_iter 2–4, all direction providers) stop() from inside '
-             'every problem / direction call and every progress callback; plus seeded random runs with '
-             'random stop points; plus real std::thread calling stop() after the k-th evaluation / a random '
-             'delay on a slowed-down problem; non-trivial = the stop landed before the solve ended',
+                     'x86-64 total store order in the real-thread test (relaxed load sees the store promptly)',
+                     'event bounds for ZeroFPR / FISTA / PANOC-OCP are derived from the source and checked by the '
+                     'monitor; only PANOC (ticks ≤ max(init+4, t₀+7)) and PANTR (iteration ≤ 15+2b, exit ≤ 3) '
+                     'have a machine-checked event count'],
+        rule='exhaustive: for fixed runs of each of the five inner solvers (max_iter 2–4, all direction providers) '
+             'stop() from inside every problem / direction call and every progress callback; plus seeded random '
+             'runs with random stop points; plus real std::thread calling stop() after the k-th evaluation / a '
+             'random delay on a slowed-down problem (PANOC, ZeroFPR, PANTR, FISTA); plus alm.stop() from inside '
+             'every event of fixed ALM runs over PANOC / ZeroFPR / PANTR / FISTA; non-trivial = the stop landed '
+             'before the solve ended',
     )
 
 
